@@ -1,20 +1,16 @@
 import PyYetiVerif.Model.RainflowEntry
 import PyYetiVerif.Generated.PyRain
 import PyYetiVerif.Generated.RainflowWrap
+import PyYetiVerif.Generated.CRain
 /-! Line protocol for C05, generated programs (kept apart from Drivers/C05.lean so that a source
 change that makes the regenerated embedding ill-typed cannot take the hand-written model's streams
 down with it).
-request : `rf  v0 v1 …`  (integers)  → tidy model, rainflow with offsets
-          `rf1 v0 v1 …`              → tidy model, variant without offsets
-          `ge <g> <shape…> | <bits…>`      → GENERATED `py_rain.rainflow` at Float (IEEE doubles given
+request : `ge <g> <shape…> | <bits…>`      → GENERATED `py_rain.rainflow` at Float (IEEE doubles given
                                              as their 64-bit patterns in decimal), `g` ∈ 0 1
           `gw <g> <up> <shape…> | <bits…>` → GENERATED `cyclecount.rainflow` on top of the generated
                                              `py_rain.rainflow`
-          `me <c|py> <g> <safe> <shape…> | <bits…>` → entry MODEL (`g` ∈ 0 1 -, `-` = omitted; `safe` ∈ 0 1:
-                                             does the dtype cast safely to float64)
-          `mw <availc> <g> <up> <safe> <shape…> | <bits…>` → wrapper MODEL (`g`,`up` ∈ 0 1 -)
-reply   : `rng sum full s e;…` (rf) / `rng sum full;…` (rf1)
-          `value-error` | `type-error` | `internal` | `table R` | `tables R|O` | `frame C|R` | `frames C|R|C|O`
+          `gc <1f|2f|1s|2s> <L> | <bits…>` → GENERATED C `rainflow1`/`rainflow2`, macro defined (f) / not (s)
+reply   : `value-error` | `type-error` | `internal` | `table R` | `tables R|O` | `frame C|R` | `frames C|R|C|O`
             with R = `b b b;b b b;…` (bit patterns), O = `s e;s e;…`, C = `name,name,…`
           `bad-op` for anything else. -/
 open PyYetiVerif.Rainflow PyYetiVerif.RainflowImp PyYetiVerif.RainflowEntry
@@ -72,6 +68,21 @@ def answer (line : String) : String :=
       | some (some g), some (some up), some nd =>
           fmtOut (observeW (PyYetiVerif.Generated.RainflowWrap.rainflow genEntry nd g up))
       | _, _, _ => "bad-op"
+  | "gc" :: which :: ws => match parseNd ws with
+      -- GENERATED C counting routines (Generated/CRain.lean): which ∈ 1f 2f 1s 2s
+      | some nd =>
+          let L := nd.data.length
+          let a := Arr.ofList nd.data
+          let one (r : Option (Arr2 Float)) : String :=
+            fmtOut (observe (match r with | some t => .ok (.plain t) | none => .error .internal))
+          let two (r : Option (Arr2 Float × Arr2 Int)) : String :=
+            fmtOut (observe (match r with | some t => .ok (.pair t.1 t.2) | none => .error .internal))
+          if which = "1f" then one (PyYetiVerif.Generated.CRain.rainflow1_fast L a L)
+          else if which = "2f" then two (PyYetiVerif.Generated.CRain.rainflow2_fast L a L)
+          else if which = "1s" then one (PyYetiVerif.Generated.CRain.rainflow1_slow L a L)
+          else if which = "2s" then two (PyYetiVerif.Generated.CRain.rainflow2_slow L a L)
+          else "bad-op"
+      | none => "bad-op"
   | _ => "bad-op"
 
 partial def loop (h : IO.FS.Stream) (out : IO.FS.Stream) : IO Unit := do
